@@ -512,6 +512,9 @@ def k_render_field(R, maxq, props):
                     # (serde: "missing field"); a nullable ID must accept absence
                     if code is not None and code.startswith('O'):
                         claims['C16:absent-is-none'] = z3.BoolVal('default' in merged)
+                # `default` turns a missing key into a default value: only a nullable field may have it
+                if 'default' in merged:
+                    claims['C03:default-only-on-nullable'] = z3.BoolVal(code is not None and (code.startswith('O') or code.startswith('BO')))
                 else:
                     claims['C16:all-ids'] = z3.Not(is_id)
             env = dict(qs=qs, gname=gname, rname=rname, ftype=ftype, reason=reason, has_g=has_g, dep1=dep1, dep2=dep2, flatten=flatten, boxed=boxed,
@@ -629,12 +632,14 @@ def k_keyword_replace(R):
 
 def SNAKE_OF(R, x):
     import summaries
-    return summaries.heck_result(R.vm, 'to_snake_case', x)
+    r = summaries.heck_result(R.vm, 'to_snake_case', x)
+    return z3.StringVal(r) if isinstance(r, str) else r
 
 
 def CAMEL_OF(R, x):
     import summaries
-    return summaries.heck_result(R.vm, 'to_upper_camel_case', x)
+    r = summaries.heck_result(R.vm, 'to_upper_camel_case', x)
+    return z3.StringVal(r) if isinstance(r, str) else r
 
 
 def schema_with(B, scalars=(), inputs=()):
@@ -802,28 +807,45 @@ def graph_of_model(m, g):
 
 
 def k_input_recursion(R, N, K, qlen):
+    """`input_is_recursive_without_indirection(t)` for every type t of every input multigraph within the bound.
+    The property: every cycle of non-list fields contains a field whose target type gets a Box, i.e. the graph of
+    non-list edges into types for which the predicate is *false* is acyclic.  (The stricter "predicate(t) == t lies on a
+    list-free cycle" is what the code aims at; deviations from it are counted but only the property is a finding.)"""
     req, lst = qual_indices(R)
     f = R.fn('input_is_recursive_without_indirection')
     out = []
+    per_target = {}
+    g = None
+    strict_deviations = 0
     for target in range(N):
         holder = {}
 
         def setup(st, B, target=target):
-            schema, g = input_graph(B, st, N, K, qlen, f'g{N}{K}{target}_', req, lst)
-            holder['g'] = g
+            schema, g_ = input_graph(B, st, N, K, qlen, f'g{N}{K}{qlen}_', req, lst)     # same variables for every target
+            holder['g'] = g_
+            holder['npc'] = len(st.pc)
             R.vm.push_call(st, f, [B.newtype('InputId', bv(target, 32)), B.cell(schema)], None, None)
         outs, _ = R.explore(f'input_is_recursive_without_indirection(N={N},K={K})', setup)
         if not outs:
-            continue
+            return out
         g = holder['g']
+        base = None
         reach = graph_reach(g)[target][target]
+        false_paths = []
         for o in outs:
             if o.kind == 'return':
-                m = R.prove('input_recursion', o, o.value == reach, f'target {target}')
-                if m is not None:
-                    out.append(dict(kernel='input_recursion', prop='C12', what='box decision differs from "lies on a list-free cycle"', target=f'I{target}',
-                                    got=str(m.eval(o.value, model_completion=True)), graph=graph_of_model(m, g)))
-            elif o.kind == 'limit':
+                if z3.is_false(simp(o.value)) or z3.is_true(simp(o.value)):
+                    val = z3.is_true(simp(o.value))
+                    if not val:
+                        false_paths.append(z3.And(*o.state.pc))
+                    R.obligations += 1
+                    R.discharged += 1
+                    # informational: strict equality with the reference
+                    if R.vm.solver.check(*(o.state.pc + [z3.BoolVal(val) != reach])) == z3.sat:
+                        strict_deviations += 1
+                else:
+                    R.inconclusive.append('input recursion predicate returned a symbolic value')
+            elif o.kind in ('limit', 'loop'):
                 m = R.vm.model(o.state)
                 out.append(dict(kernel='input_recursion', prop='C17', what=f'recursion does not terminate within the bound: {o.msg}', target=f'I{target}',
                                 graph=graph_of_model(m, g) if m else None))
@@ -831,7 +853,46 @@ def k_input_recursion(R, N, K, qlen):
                 m = R.prove('input_recursion', o, z3.BoolVal(False), 'no panic')
                 if m is not None:
                     out.append(dict(kernel='input_recursion', prop='C17', what=f'{o.kind}: {o.msg}', target=f'I{target}', graph=graph_of_model(m, g)))
+        per_target[target] = z3.Or(*false_paths) if false_paths else z3.BoolVal(False)
         R.sample(dict(kernel='input_recursion', types=N, fields_per_type=K, qualifiers=qlen, target=f'I{target}', paths=len(outs)))
+    # the property as one query: is there a graph with a cycle of non-list edges none of whose targets is boxed?
+    N_, K_ = g['N'], g['K']
+
+    def unboxed_edge(a, b):
+        cs = []
+        for j in range(K_):
+            cs.append(z3.And(g['isin'][a][j] == g['i_input'], g['tgt'][a][j] == b, *[q != g['lst'] for q in g['qs'][a][j]]))
+        return z3.And(z3.Or(*cs), per_target[b])
+    D = [[unboxed_edge(a, b) for b in range(N_)] for a in range(N_)]
+    Rm = D
+    for _ in range(N_):
+        Rm = [[z3.Or(Rm[a][b], *[z3.And(Rm[a][c], D[c][b]) for c in range(N_)]) for b in range(N_)] for a in range(N_)]
+    dom = []
+    for a in range(N_):
+        for j in range(K_):
+            dom += [z3.ULT(g['tgt'][a][j], N_), z3.Or(g['isin'][a][j] == g['i_input'], g['isin'][a][j] != g['i_input'])]
+            dom += [z3.ULT(q, 2) for q in g['qs'][a][j]]
+    R.obligations += 1
+    sol = z3.Solver()
+    sol.set('timeout', 120000)
+    sol.add(*dom)
+    sol.add(z3.Or(*[Rm[a][a] for a in range(N_)]))
+    t0 = __import__('time').time()
+    r = sol.check()
+    R.vm.solver_time += __import__('time').time() - t0
+    R.vm.queries += 1
+    if r == z3.unsat:
+        R.discharged += 1
+        if len(R.cross) < 40:
+            R.cross.append(sol.to_smt2())
+    elif r == z3.sat:
+        m = sol.model()
+        # complete the scalar / input choice for printing
+        out.append(dict(kernel='input_recursion', prop='C12', what='a cycle of non-list fields on which no target type is boxed', target='I0', got='False',
+                        graph=graph_of_model(m, g)))
+    else:
+        R.inconclusive.append('input recursion: solver unknown on the cycle query')
+    R.sample(dict(kernel='input_recursion', types=N, fields_per_type=K, strict_deviations_from_reference=strict_deviations))
     return out
 
 
@@ -1304,10 +1365,11 @@ def k_find_deprecation(R, ndir, nargs):
 
 # ---------------------------------------------------------------- C06: validation kernels
 
-def abstract_schema(B, st, prefix):
-    """2 objects, 1 interface, 1 union; `implements` and union membership are symbolic bits"""
+def abstract_schema(B, st, prefix, members=None):
+    """2 objects, 1 interface, 1 union; `implements` and union membership are symbolic bits
+    (with `members` = concrete list of bools the union's variant list is built exactly)"""
     impl = [z3.Bool(f'{prefix}impl{o}') for o in range(2)]
-    memb = [z3.Bool(f'{prefix}memb{o}') for o in range(2)]
+    memb = [z3.Bool(f'{prefix}memb{o}') for o in range(2)] if members is None else [z3.BoolVal(b) for b in members]
     objs = []
     for o in range(2):
         # implements_interfaces: Vec<InterfaceId> of symbolic content: [I0] or [I9] (an id that is not I0)
@@ -1315,7 +1377,10 @@ def abstract_schema(B, st, prefix):
         objs.append(B.struct('StoredObject', name=StrV(f'O{o}'), fields=VecV(()), implements_interfaces=VecV([B.newtype('InterfaceId', iid)])))
     iface = B.struct('StoredInterface', name=StrV('I0'), fields=VecV(()))
     # union variants: Object(0) or Object(7) (not a member) per slot
-    variants = VecV([B.variant('TypeId', 'Object', B.newtype('ObjectId', z3.If(memb[o], bv(o, 32), bv(7 + o, 32)))) for o in range(2)])
+    if members is None:
+        variants = VecV([B.variant('TypeId', 'Object', B.newtype('ObjectId', z3.If(memb[o], bv(o, 32), bv(7 + o, 32)))) for o in range(2)])
+    else:
+        variants = VecV([B.variant('TypeId', 'Object', B.newtype('ObjectId', bv(o, 32))) for o in range(2) if members[o]])
     union = B.struct('StoredUnion', name=StrV('U0'), variants=variants)
     schema = B.struct('Schema', stored_objects=VecV(objs), stored_fields=VecV(()), stored_interfaces=VecV([iface]), stored_unions=VecV([union]),
                       stored_scalars=VecV([B.struct('StoredScalar', name=StrV('S'))]), stored_enums=VecV(()), stored_inputs=VecV(()), names=B.btreemap([]),
@@ -1595,3 +1660,284 @@ def k_generated_module(R):
                             normalization=norms[m.eval(norm, model_completion=True).as_long()]))
     R.sample(dict(kernel='generated_module', paths=len(outs)))
     return out
+
+
+# ---------------------------------------------------------------- C18: #[graphql(...)] attribute scanning (graphql_query_derive)
+
+def tt(B, kind, payload):
+    """proc_macro2::TokenTree value"""
+    return B.variant('TokenTree', kind, payload)
+
+
+def attr_tokens(B, entries, trailing_comma):
+    """entries: list of ('kv', key, value) | ('flag', key) | ('list', key, [values]); keys / values are z3 strings"""
+    items = []
+    for i, e in enumerate(entries):
+        if i:
+            items.append(tt(B, 'Punct', Opaque('punct', ',')))
+        items.append(tt(B, 'Ident', Opaque('ident', e[1])))
+        if e[0] == 'kv':
+            items.append(tt(B, 'Punct', Opaque('punct', '=')))
+            items.append(tt(B, 'Literal', Opaque('literal', e[2])))
+        elif e[0] == 'list':
+            inner = []
+            for j, v in enumerate(e[2]):
+                if j:
+                    inner.append(tt(B, 'Punct', Opaque('punct', ',')))
+                inner.append(tt(B, 'Literal', Opaque('literal', v)))
+            items.append(tt(B, 'Group', Opaque('group', Tokens(inner))))
+    if trailing_comma and entries:
+        items.append(tt(B, 'Punct', Opaque('punct', ',')))
+    return Tokens(items)
+
+
+def derive_input(B, tokens, other_attrs_before=1):
+    def attribute(name, toks):
+        ml = B.struct('syn::MetaList', path=Opaque('synpath', name), delimiter=Opaque('delim'), tokens=toks)
+        return B.struct('syn::Attribute', pound_token=Opaque('tok'), style=Opaque('style'), bracket_token=Opaque('tok'), meta=B.variant('Meta', 'List', ml))
+    attrs = [attribute('derive', Tokens([]))] * other_attrs_before + [attribute('graphql', tokens), attribute('allow', Tokens([]))]
+    return B.struct('syn::DeriveInput', attrs=VecV(attrs), vis=Opaque('vis'), ident=Opaque('ident', 'MyQuery'), generics=Opaque('generics'), data=Opaque('data'))
+
+
+def k_derive_attributes(R, max_entries):
+    """attributes::{extract_attr, extract_attr_list, ident_exists} over every well-formed arrangement of
+    `key = "value"`, flag and `key("a", "b")` entries (any order, optional trailing comma), keys and values symbolic"""
+    import itertools
+    f_attr, f_list, f_flag = R.fn('extract_attr'), R.fn('extract_attr_list'), R.fn('ident_exists')
+    out = []
+    wanted = z3.String('attr_wanted')
+    for n in range(0, max_entries + 1):
+        for shape in itertools.product(('kv', 'flag', 'list'), repeat=n):
+            for trailing in (False, True):
+                if n == 0 and trailing:
+                    continue
+                keys = [z3.String(f'ak{n}_{i}') for i in range(n)]
+                vals = [z3.String(f'av{n}_{i}') for i in range(n)]
+                lvals = [[z3.String(f'al{n}_{i}_{j}') for j in range(2)] for i in range(n)]
+                entries = []
+                for i, kd in enumerate(shape):
+                    entries.append(('kv', keys[i], vals[i]) if kd == 'kv' else ('flag', keys[i]) if kd == 'flag' else ('list', keys[i], lvals[i]))
+                for fn, what in ((f_attr, 'attr'), (f_list, 'list'), (f_flag, 'flag')):
+                    def setup(st, B, entries=entries):
+                        for a, b in itertools.combinations(keys, 2):
+                            st.pc.append(a != b)                      # keys of one attribute are distinct
+                        toks = attr_tokens(B, entries, trailing)
+                        R.vm.push_call(st, fn, [B.cell(derive_input(B, toks)), StrV(wanted)], None, None)
+                    outs, _ = R.explore(f'attributes::{fn.name.split("::")[-1]}', setup)
+                    for o in outs:
+                        if o.kind != 'return':
+                            if o.kind != 'panic':
+                                R.inconclusive.append(f'derive attributes: {o.kind}: {o.msg}')
+                            else:
+                                m = R.prove('derive_attributes', o, z3.BoolVal(False), 'no panic')
+                                if m is not None:
+                                    out.append(dict(kernel='derive_attributes', prop='C18', what=f'panic: {o.msg}', shape=shape, trailing_comma=trailing))
+                            continue
+                        v = o.value
+                        if isinstance(v, SymEnum):
+                            R.inconclusive.append('derive attributes: symbolic Result')
+                            continue
+                        if what == 'attr':
+                            hits = [z3.And(keys[i] == wanted) for i, kd in enumerate(shape) if kd == 'kv']
+                            if v.variant == 0:
+                                got = v.fields[0].z()
+                                claim = z3.Or(*[z3.And(keys[i] == wanted, vals[i] == got) for i, kd in enumerate(shape) if kd == 'kv']) if hits else z3.BoolVal(False)
+                            else:
+                                claim = z3.Not(z3.Or(*hits)) if hits else z3.BoolVal(True)
+                        elif what == 'list':
+                            hits = [keys[i] == wanted for i, kd in enumerate(shape) if kd == 'list']
+                            if v.variant == 0:
+                                got = v.fields[0].items
+                                claim = z3.Or(*[z3.And(keys[i] == wanted, z3.BoolVal(len(got) == 2), *[g.z() == lv for g, lv in zip(got, lvals[i])])
+                                                for i, kd in enumerate(shape) if kd == 'list']) if hits else z3.BoolVal(False)
+                            else:
+                                claim = z3.Not(z3.Or(*hits)) if hits else z3.BoolVal(True)
+                        else:
+                            present = z3.Or(*[k_ == wanted for k_ in keys]) if keys else z3.BoolVal(False)
+                            claim = present if v.variant == 0 else z3.Not(present)
+                        m = R.prove('derive_attributes', o, claim, f'{what} {shape} trailing={trailing}')
+                        if m is not None:
+                            ev = lambda x: m.eval(x, model_completion=True).as_string()
+                            out.append(dict(kernel='derive_attributes', prop='C18', what=f'{fn.name.split("::")[-1]} returns the wrong answer', shape=list(shape), trailing_comma=trailing,
+                                            wanted=ev(wanted), keys=[ev(k_) for k_ in keys], values=[ev(x) for x in vals], result='Ok' if v.variant == 0 else 'Err'))
+    R.sample(dict(kernel='derive_attributes', max_entries=max_entries))
+    return out
+
+
+# ---------------------------------------------------------------- calculate_selection on abstract types (C01, C03, C09, C12)
+
+def k_abstract_selection(R, S):
+    """codegen::selection::render_fragment for a fragment F0 on an interface / union with S selections of symbolic kind
+    (`__typename`, leaf field, inline fragment on an object, spread of F1 / F2 whose type conditions are symbolic).
+    Claims: the `__typename`-tagged variants are exactly the possible object types, named by their schema names,
+    plus `Unknown` iff fragments_other_variant; every selection that targets an object ends up in that object's variant."""
+    import summaries as Sm
+    f = R.fn('render_fragment')
+    out = []
+    kinds = R.L.enums['Selection']
+    i_field, i_inline, i_spread, i_typename = (kinds.index(x) for x in ('Field', 'InlineFragment', 'FragmentSpread', 'Typename'))
+    tk = R.L.enums['TypeId']
+    holder = {}
+    sk = [z3.BitVec(f'as_k{s}', 8) for s in range(S)]          # kind of selection s
+    st_obj = [z3.BitVec(f'as_o{s}', 8) for s in range(S)]      # inline: object index 0/1
+    st_fr = [z3.BitVec(f'as_f{s}', 8) for s in range(S)]       # spread: fragment 1/2
+    fr_on = [z3.BitVec(f'as_on{k}', 8) for k in (1, 2)]        # F1 / F2: 0 -> O0, 1 -> O1, 2 -> the abstract type itself
+    pkind = z3.BitVec('as_parent', 8)                          # 2 interface, 3 union
+    other = z3.Bool('as_other_variant')
+
+    def setup(st, B):
+        schema, sv = abstract_schema(B, st, 'as_', members=holder['members'])
+        # add the leaf field the selections refer to
+        tid_s = B.variant('TypeId', 'Scalar', B.newtype('ScalarId', bv(0, 64)))
+        leaf = B.struct('StoredField', name=StrV('leaf'), type=B.struct('StoredFieldType', id=tid_s, qualifiers=VecV(())),
+                        parent=B.variant('StoredFieldParent', 'Object', B.newtype('ObjectId', bv(0, 32))), deprecation=none())
+        names = R.L.structs['Schema']
+        fs = list(schema.fields)
+        fs[names.index('stored_fields')] = VecV([leaf])
+        schema = Agg(None, fs, 'Schema')
+        holder['sv'] = sv
+        st.pc += [z3.Or(pkind == 2, pkind == 3)]
+        for s in range(S):
+            st.pc += [z3.Or(sk[s] == i_field, sk[s] == i_inline, sk[s] == i_spread, sk[s] == i_typename), z3.ULT(st_obj[s], 2), z3.Or(st_fr[s] == 1, st_fr[s] == 2)]
+            st.pc.append(z3.Implies(pkind == 3, sk[s] != i_field))       # a union has no fields of its own (resolve_union_selection rejects them)
+        # `__typename` is selected (validate_typename_presence guarantees it) - put it first
+        st.pc.append(sk[0] == i_typename)
+        # each named fragment is spread at most once per selection set (duplicate field names otherwise)
+        for a in range(S):
+            for b_ in range(a + 1, S):
+                st.pc.append(z3.Not(z3.And(sk[a] == i_spread, sk[b_] == i_spread, st_fr[a] == st_fr[b_])))
+        for k in range(2):
+            st.pc.append(z3.ULT(fr_on[k], 3))
+        parent_ty = SymEnum(z3.If(pkind == 2, bv(tk.index('Interface'), 8), bv(tk.index('Union'), 8)),
+                            {tk.index('Interface'): (B.newtype('InterfaceId', bv(0, 64)),), tk.index('Union'): (B.newtype('UnionId', bv(0, 64)),)})
+
+        def obj_or_parent(code):
+            d = z3.If(code == 2, z3.If(pkind == 2, bv(tk.index('Interface'), 8), bv(tk.index('Union'), 8)), bv(tk.index('Object'), 8))
+            return SymEnum(d, {tk.index('Object'): (B.newtype('ObjectId', z3.If(code == 1, bv(1, 32), bv(0, 32))),),
+                               tk.index('Interface'): (B.newtype('InterfaceId', bv(0, 64)),), tk.index('Union'): (B.newtype('UnionId', bv(0, 64)),)})
+        sid = lambda n: B.newtype('SelectionId', bv(n, 32))
+        selections, parents, top = [], [], []
+        mk_leaf = lambda: B.variant('Selection', 'Field', B.struct('SelectedField', alias=none(), field_id=B.newtype('StoredFieldId', bv(0, 64)), selection_set=VecV(())))
+        for s in range(S):
+            me = len(selections)
+            child = me + 1
+            leaf_sel = B.struct('SelectedField', alias=none(), field_id=B.newtype('StoredFieldId', bv(0, 64)), selection_set=VecV(()))
+            inline = B.struct('InlineFragment', type_id=B.variant('TypeId', 'Object', B.newtype('ObjectId', z3.If(st_obj[s] == 1, bv(1, 32), bv(0, 32)))), selection_set=VecV([sid(child)]))
+            selections.append(SymEnum(sk[s], {i_field: (leaf_sel,), i_inline: (inline,), i_spread: (B.newtype('ResolvedFragmentId', z3.ZeroExt(24, st_fr[s])),), i_typename: ()}))
+            parents.append((sid(me), B.variant('SelectionParent', 'Fragment', B.newtype('ResolvedFragmentId', bv(0, 32)))))
+            selections.append(mk_leaf())
+            parents.append((sid(child), B.variant('SelectionParent', 'InlineFragment', sid(me))))
+            top.append(sid(me))
+        frags = [B.struct('ResolvedFragment', name=StrV('F0'), on=parent_ty, selection_set=VecV(top))]
+        for k in range(2):
+            frags.append(B.struct('ResolvedFragment', name=StrV(f'F{k + 1}'), on=obj_or_parent(fr_on[k]), selection_set=VecV(())))
+        q = B.struct('Query', fragments=VecV(frags), operations=VecV(()), selection_parent_idx=B.btreemap(parents), selections=VecV(selections), variables=VecV(()))
+        bq = B.cell(B.struct('BoundQuery', query=B.cell(q), schema=B.cell(schema)))
+        opts = B.cell(options_value(B, fragments_other_variant=other))
+        R.vm.push_call(st, f, [B.newtype('ResolvedFragmentId', bv(0, 32)), opts, bq], None, None)
+    all_outs = []
+    for members in ([True, True], [True, False], [False, True]):
+        holder['members'] = members
+        outs_m, _ = R.explore(f'render_fragment on abstract type ({S} selections)', setup)
+        all_outs += [(o_, holder['sv']) for o_ in outs_m]
+    ES = R.L.structs.get('ExpandedSelection')
+    EV, EF, TA = R.L.structs.get('ExpandedVariant'), R.L.structs.get('ExpandedField'), R.L.structs.get('TypeAlias')
+    menv = dict(sk=sk, st_obj=st_obj, st_fr=st_fr, fr_on=fr_on, pkind=pkind, other=other, S=S, i_field=i_field, i_inline=i_inline, i_spread=i_spread, i_typename=i_typename)
+    for o, sv in all_outs:
+        if o.kind != 'return':
+            if o.kind == 'panic':
+                m = R.prove('abstract_selection', o, z3.BoolVal(False), 'no panic on a valid selection')
+                if m is not None:
+                    out.append(dict(kernel='abstract_selection', prop='C01', what=f'panic: {o.msg}', model=abstract_model(m, dict(menv, sv=sv))))
+            elif o.kind != 'limit':
+                R.inconclusive.append(f'abstract_selection: {o.kind}: {o.msg}')
+            continue
+        es = o.value
+        vm_ = R.vm
+        variants = es.fields[ES.index('variants')].items
+        fields = es.fields[ES.index('fields')].items
+        aliases = es.fields[ES.index('aliases')].items
+        types = es.fields[ES.index('types')].items
+
+        def sname(v):
+            return Sm.as_str(vm_, o.state, v)
+        root_variants = [v for v in variants if z3.is_true(simp(v.fields[EV.index('on')].fields[0] == bv(0, 32)))]
+        claims = {}
+        poss = [z3.If(pkind == 2, sv['impl'][ob], sv['memb'][ob]) for ob in range(2)]
+        # variants: exactly the possible types (by schema name) + Unknown iff the option
+        for ob in range(2):
+            n_named = sum(1 for v in root_variants if sname(v.fields[EV.index('name')]).s == f'O{ob}')
+            claims[f'C03:variant-for-O{ob}'] = z3.If(poss[ob], z3.BoolVal(n_named == 1), z3.BoolVal(n_named == 0))
+        n_unknown = sum(1 for v in root_variants if sname(v.fields[EV.index('name')]).s == 'Unknown')
+        claims['C03:unknown-variant'] = z3.If(other, z3.BoolVal(n_unknown == 1), z3.BoolVal(n_unknown == 0))
+        known_names = {'O0', 'O1', 'Unknown'}
+        claims['C09:variant-names-are-schema-names'] = z3.BoolVal(all(isinstance(sname(v.fields[EV.index('name')]).s, str) and sname(v.fields[EV.index('name')]).s in known_names for v in root_variants))
+        for v in root_variants:
+            if sname(v.fields[EV.index('name')]).s == 'Unknown':
+                claims['C03:unknown-is-default'] = v.fields[EV.index('is_default_variant')]
+        # per object: what the selections put into its variant
+        for ob in range(2):
+            targets_inline = [z3.And(sk[s] == i_inline, st_obj[s] == ob) for s in range(S)]
+            targets_spread = [z3.And(sk[s] == i_spread, z3.Or(*[z3.And(st_fr[s] == k + 1, fr_on[k] == ob) for k in range(2)])) for s in range(S)]
+            n_inline = z3.Sum([z3.If(c, 1, 0) for c in targets_inline])
+            n_spread = z3.Sum([z3.If(c, 1, 0) for c in targets_spread])
+            vs = [v for v in root_variants if sname(v.fields[EV.index('name')]).s == f'O{ob}']
+            if not vs:
+                continue
+            vt = vs[0].fields[EV.index('variant_type')]
+            has_type = (vt.variant == 1) if isinstance(vt, Agg) else None
+            if has_type is None:
+                continue
+            claims[f'C01:O{ob}-payload-iff-selected'] = z3.Implies(poss[ob], z3.BoolVal(has_type) == (n_inline + n_spread > 0))
+            if has_type:
+                tname = sname(vt.fields[0])
+                # struct id of that variant type
+                sids = [i for i, t_ in enumerate(types) if str_same(sname(t_.fields[0]), tname)]
+                if len(sids) != 1:
+                    claims[f'C01:O{ob}-type-defined-once'] = z3.BoolVal(False)
+                    continue
+                sid_ = sids[0]
+                al = [a for a in aliases if z3.is_true(simp(a.fields[TA.index('struct_id')].fields[0] == bv(sid_, 32)))]
+                fl = [x for x in fields if z3.is_true(simp(x.fields[EF.index('struct_id')].fields[0] == bv(sid_, 32)))]
+                n_flat = sum(1 for x in fl if z3.is_true(simp(x.fields[EF.index('flatten')])))
+                n_plain = len(fl) - n_flat
+                if al:
+                    # aliasing the variant to one fragment is only right when that spread is the whole selection on the object
+                    claims[f'C01:O{ob}-alias-only-for-single-spread'] = z3.Implies(poss[ob], z3.And(n_spread == 1, n_inline == 0))
+                else:
+                    claims[f'C01:O{ob}-every-spread-kept'] = z3.Implies(poss[ob], n_spread == n_flat)
+                    claims[f'C01:O{ob}-inline-fields-kept'] = z3.Implies(poss[ob], n_inline == n_plain)
+        m = R.prove('abstract_selection', o, z3.And(*claims.values()), 'variants of an abstract selection')
+        if m is not None:
+            failing = [nm for nm, c in claims.items() if not z3.is_true(m.eval(c, model_completion=True))]
+            out.append(dict(kernel='abstract_selection', prop=failing[0].split(':')[0] if failing else 'C01', what=failing[0] if failing else '?',
+                            model=abstract_model(m, dict(menv, sv=sv)),
+                            variants=[(sname(v.fields[EV.index('name')]).s, repr(v.fields[EV.index('variant_type')])[:60]) for v in root_variants]))
+    R.sample(dict(kernel='abstract_selection', selections=S, paths=len(all_outs)))
+    return out
+
+
+def str_same(a, b):
+    if isinstance(a.s, str) and isinstance(b.s, str):
+        return a.s == b.s
+    return z3.is_true(simp(a.z() == b.z()))
+
+
+def abstract_model(m, env):
+    ev = lambda x: m.eval(x, model_completion=True)
+    S = env['S']
+    sels = []
+    for s in range(S):
+        k = ev(env['sk'][s]).as_long()
+        if k == env['i_typename']:
+            sels.append('__typename')
+        elif k == env['i_field']:
+            sels.append('leaf')
+        elif k == env['i_inline']:
+            sels.append(f"... on O{ev(env['st_obj'][s]).as_long()} {{ leaf }}")
+        else:
+            sels.append(f"...F{ev(env['st_fr'][s]).as_long()}")
+    on = lambda c: ['O0', 'O1', 'PARENT'][ev(c).as_long()]
+    return dict(parent='interface' if ev(env['pkind']).as_long() == 2 else 'union', selections=sels, F1_on=on(env['fr_on'][0]), F2_on=on(env['fr_on'][1]),
+                implements=[z3.is_true(ev(x)) for x in env['sv']['impl']], members=[z3.is_true(ev(x)) for x in env['sv']['memb']],
+                fragments_other_variant=z3.is_true(ev(env['other'])))
